@@ -628,7 +628,254 @@ func gen(tier string, emit func(engine.Case) bool) {
 	}
 
 	// Family E - two levels, every combination of for_each kinds (known, empty, unknown, marks A / B / A+B)
-	genNestMarks(thorough, out)
+	if !genNestMarks(thorough, out) {
+		return
+	}
+
+	// Family F - specs with several label names (one map level per name in the implied type)
+	if !genMultiLabel(thorough, out) {
+		return
+	}
+
+	// Family G - MinItems / MaxItems against an unknown number of blocks
+	genCount(thorough, out)
+}
+
+// ---------------------------------------------------------------------------
+// Family F: several label names
+
+var labelConsts = []string{"L", "M", "N"}
+
+// blockSpecN: like blockSpecOf with n label names (map, bobject: LabelNames;
+// lablist: n BlockLabelSpecs in the nested object) and MinItems / MaxItems
+// (list, set, btuple).
+func blockSpecN(kind, name string, nested *sg.Spec, n, min, max int) *sg.Spec {
+	names := []string{"k", "m", "n"}[:n]
+	switch kind {
+	case "map", "bobject":
+		return &sg.Spec{K: kind, Name: name, Labels: append([]string(nil), names...), Kids: []*sg.Spec{nested}}
+	case "lablist":
+		nn := nested.Clone()
+		for i, ln := range names {
+			nn.Keys = append(nn.Keys, fmt.Sprintf("lbl%d", i))
+			nn.Kids = append(nn.Kids, &sg.Spec{K: sg.KLabel, Index: i, Name: ln})
+		}
+		return &sg.Spec{K: sg.KList, Name: name, Min: min, Max: max, Kids: []*sg.Spec{nn}}
+	}
+	return &sg.Spec{K: kind, Name: name, Min: min, Max: max, Kids: []*sg.Spec{nested}}
+}
+
+// labelVectors: the label expressions of a dynamic block with n labels, per
+// position one of: c (constant L / M / N), k (it.key), t (template "p-${it.key}"), v (it.value).
+func labelVectors(n int) []string {
+	if n == 2 {
+		return []string{"cc", "ck", "kc", "kt", "tv"}
+	}
+	return []string{"ccc", "cck", "kct", "ckv"}
+}
+
+func labelVector(it, forms string) []sg.Expr {
+	var out []sg.Expr
+	for i, f := range forms {
+		switch f {
+		case 'c':
+			out = append(out, sg.S(labelConsts[i]))
+		case 'k':
+			out = append(out, sg.R(it, "key"))
+		case 't':
+			out = append(out, sg.T(sg.S("p-"), sg.R(it, "key")))
+		case 'v':
+			out = append(out, sg.R(it, "value"))
+		}
+	}
+	return out
+}
+
+// staticLabels: the labels of the i-th static sibling of a block type with n
+// labels: the leading ones are the constants the generated blocks use too
+// (shared outer map keys), the last one is its own.
+func staticLabels(i, n int) []string {
+	ls := append([]string(nil), labelConsts[:n-1]...)
+	return append(ls, fmt.Sprintf("s%d", i))
+}
+
+// staticBlocks / layoutBlocks: a layout over P (the given block) and S (static
+// siblings of type ty with the attribute attr and n labels).
+func layoutBlocks(layout string, p sg.Block, ty, attr string, n int) []sg.Block {
+	var out []sg.Block
+	ns := 0
+	for _, c := range layout {
+		switch c {
+		case 'P':
+			out = append(out, p)
+		case 'S':
+			ns++
+			b := sg.Block{Type: ty, Body: &sg.Body{Attrs: []sg.Attr{{Name: attr, Expr: sg.S(fmt.Sprintf("%ss%d", ty, ns))}}}}
+			if n > 0 {
+				b.Labels = staticLabels(ns, n)
+			}
+			out = append(out, b)
+		}
+	}
+	return out
+}
+
+// outerSpec: object{top, x: <xs>, y: list{a}}.
+func outerSpec(xs *sg.Spec) *sg.Spec {
+	return objSpec("top", attrSpec("top", sg.TString), "x", xs,
+		"y", blockSpecOf("list", "y", objSpec("a", attrSpec("a", sg.TDynamic))))
+}
+
+// nestedIn: top = g; [static x | dynamic x over l2] { a; <zblocks> }; y { a = g }.
+func nestedIn(outerDyn bool, zblocks []sg.Block) *sg.Body {
+	x := sg.Block{Type: "x", Body: &sg.Body{Attrs: []sg.Attr{{Name: "a", Expr: sg.S("xs")}}, Blocks: zblocks}}
+	if outerDyn {
+		x.Dyn = &sg.Dyn{ForEach: sg.R("l2")}
+		x.Body.Attrs[0].Expr = sg.R("x", "value")
+	}
+	return &sg.Body{Attrs: []sg.Attr{{Name: "top", Expr: sg.R("g")}}, Blocks: []sg.Block{x, staticY()}}
+}
+
+// genMultiLabel: family F - block types with 2 and 3 labels decoded by
+// BlockMapSpec / BlockObjectSpec with as many LabelNames (and a BlockListSpec
+// with as many BlockLabelSpecs): (multilabel) the dynamic block and 0-2 static
+// siblings at the top level; (nest-multilabel) a dynamic z with its static
+// sibling inside a static x or inside the blocks generated by a dynamic x.
+func genMultiLabel(thorough bool, out func(fam, syn string, spec *sg.Spec, body *sg.Body) bool) bool {
+	colls := []string{"l0", "l2", "m2", "s2", "ml2", "tu2", "ul", "um", "us", "ud", "mul"}
+	its := []string{"", "g"}
+	ces := []string{"value", "tmpl"}
+	lays := layouts(3, "S")
+	inners := []string{"l2", "m2", "ul", "um", "ud", "mul"}
+	if thorough {
+		colls = collThorough
+		its = iters
+		ces = []string{"const", "key", "value", "tmpl"}
+		inners = []string{"l0", "l2", "m2", "s2", "ml2", "tu2", "ul", "um", "us", "ud", "mul"}
+	}
+	syntaxes := []string{"native", "json"}
+	for _, lay := range lays {
+		for _, coll := range colls {
+			for _, it := range its {
+				for _, ce := range ces {
+					for _, xk := range []string{"map", "bobject", "lablist"} {
+						for _, n := range []int{2, 3} {
+							for _, lv := range labelVectors(n) {
+								aty := sg.TDynamic
+								if xk == "map" {
+									aty = sg.TString
+								}
+								spec := outerSpec(blockSpecN(xk, "x", objSpec("a", attrSpec("a", aty)), n, 0, 0))
+								p := principal(coll, it, ce, "", nil)
+								p.Dyn.Labels = labelVector(p.IterName(), lv)
+								body := &sg.Body{Attrs: []sg.Attr{{Name: "top", Expr: sg.R("g")}}, Blocks: layoutBlocks(lay, p, "x", "a", n)}
+								for _, syn := range syntaxes {
+									if !out("multilabel", syn, spec, body) {
+										return false
+									}
+								}
+							}
+						}
+					}
+				}
+			}
+		}
+	}
+	type outer struct {
+		xk  string
+		dyn bool
+	}
+	for _, o := range []outer{{"list", false}, {"list", true}, {"block", false}} {
+		for _, lay := range []string{"SP", "PS"} { // always a static z: no empty multi-label map (C08's known finding)
+			for _, inner := range inners {
+				for _, zk := range []string{"map", "bobject"} {
+					for _, n := range []int{2, 3} {
+						for _, lv := range labelVectors(n) {
+							zs := blockSpecN(zk, "z", objSpec("b", attrSpec("b", sg.TString)), n, 0, 0)
+							spec := outerSpec(blockSpecOf(o.xk, "x", objSpec("a", attrSpec("a", sg.TDynamic), "z", zs)))
+							p := sg.Block{Type: "z", Dyn: &sg.Dyn{ForEach: sg.R(inner), Labels: labelVector("z", lv)},
+								Body: &sg.Body{Attrs: []sg.Attr{{Name: "b", Expr: sg.R("z", "value")}}}}
+							body := nestedIn(o.dyn, layoutBlocks(lay, p, "z", "b", n))
+							for _, syn := range syntaxes {
+								if !out("nest-multilabel", syn, spec, body) {
+									return false
+								}
+							}
+						}
+					}
+				}
+			}
+		}
+	}
+	return true
+}
+
+// ---------------------------------------------------------------------------
+// Family G: MinItems / MaxItems
+
+// genCount: family G - BlockListSpec / BlockTupleSpec / BlockSetSpec with
+// MinItems and MaxItems in {0,1,2} (0 = no bound) decoding a dynamic block and
+// 0-2 static siblings in every order: (count) at the top level; (nest-count)
+// a dynamic z and its static siblings inside a static x or inside the blocks
+// generated by a dynamic x. A known for_each takes the ordinary oracle (the
+// count diagnostics are those of the write-out); for an unknown one see
+// countAlternative.
+func genCount(thorough bool, out func(fam, syn string, spec *sg.Spec, body *sg.Body) bool) bool {
+	colls := []string{"l0", "l1", "l2", "m2", "ul", "um", "us", "ud", "mul"}
+	inners := []string{"l1", "ul", "ud", "mul"}
+	ces := []string{"const", "value"}
+	bounds := []int{0, 1, 2}
+	if thorough {
+		colls = []string{"l0", "l1", "l2", "t2", "s2", "m2", "o2", "ml2", "tu2", "ul", "um", "us", "ud", "mul"}
+		inners = []string{"l0", "l1", "l2", "m2", "ul", "um", "us", "ud", "mul"}
+		bounds = []int{0, 1, 2, 3}
+	}
+	lays := layouts(3, "S")
+	kinds := []string{"list", "btuple", "set"}
+	syntaxes := []string{"native", "json"}
+	for _, lay := range lays {
+		for _, coll := range colls {
+			for _, ce := range ces {
+				for _, k := range kinds {
+					for _, min := range bounds {
+						for _, max := range bounds {
+							spec := outerSpec(blockSpecN(k, "x", objSpec("a", attrSpec("a", sg.TDynamic)), 0, min, max))
+							body := &sg.Body{Attrs: []sg.Attr{{Name: "top", Expr: sg.R("g")}},
+								Blocks: append(layoutBlocks(lay, principal(coll, "", ce, "", nil), "x", "a", 0), staticY())}
+							for _, syn := range syntaxes {
+								if !out("count", syn, spec, body) {
+									return false
+								}
+							}
+						}
+					}
+				}
+			}
+		}
+	}
+	for _, outerDyn := range []bool{false, true} {
+		for _, lay := range lays {
+			for _, inner := range inners {
+				for _, k := range kinds {
+					for _, min := range bounds {
+						for _, max := range bounds {
+							zs := blockSpecN(k, "z", objSpec("b", attrSpec("b", sg.TDynamic)), 0, min, max)
+							spec := outerSpec(blockSpecOf("list", "x", objSpec("a", attrSpec("a", sg.TDynamic), "z", zs)))
+							p := sg.Block{Type: "z", Dyn: &sg.Dyn{ForEach: sg.R(inner)},
+								Body: &sg.Body{Attrs: []sg.Attr{{Name: "b", Expr: sg.R("z", "value")}}}}
+							body := nestedIn(outerDyn, layoutBlocks(lay, p, "z", "b", 0))
+							for _, syn := range syntaxes {
+								if !out("nest-count", syn, spec, body) {
+									return false
+								}
+							}
+						}
+					}
+				}
+			}
+		}
+	}
+	return true
 }
 
 // nestMarksSpec: object{top, x: Kx{a, z: Kz{b}, s: block{c, z: Kz{b}}, t: block{d}}, y: list{a}}.
@@ -1115,25 +1362,34 @@ func markShape(d Data, wo *refdec.WriteOut) string {
 	return xKind(d.Spec) + "." + where
 }
 
-// judgePlaceholder: the clauses about the documented write-out of an unknown for_each.
-func judgePlaceholder(d Data, sh shape, spec hcldec.Spec, impl result, desc func() string) *engine.Outcome {
+// placeholderWriteOut decodes the write-out of d in which every unknown
+// for_each stands for count blocks with an unknown iterator (nil: the single
+// block of the README) with the given spec. status: "" decoded (ref holds the
+// result, possibly with errors), "undefined" there is no such write-out,
+// "panic" decoding it panics (C08's subject).
+type phWriteOut struct {
+	wo   *refdec.WriteOut
+	text string
+	ref  result
+}
+
+func placeholderWriteOut(d Data, spec hcldec.Spec, count *int, desc func() string) (*phWriteOut, string, *engine.Outcome) {
 	fail := func(class, format string, args ...any) *engine.Outcome {
 		o := engine.Fail(class, format, args...)
 		return &o
 	}
-	wo := refdec.ExpandWith(d.Body, Globals, refdec.Options{Placeholder: true})
+	wo := refdec.ExpandWith(d.Body, Globals, refdec.Options{Placeholder: true, PlaceholderCount: count})
 	if wo.Undefined != "" || wo.Unspecified != "" {
-		counters.Add("placeholder_writeouts_undefined", 1)
-		return nil
+		return nil, "undefined", nil
 	}
 	text := wo.Body.Native()
 	parsed, diags := parse(d, text, "native")
 	if diags.HasErrors() {
-		return fail("c18.harness.writeout", "placeholder write-out does not parse: %s\n%s\n%s", diags.Error(), text, desc())
+		return nil, "", fail("c18.harness.writeout", "placeholder write-out does not parse: %s\n%s\n%s", diags.Error(), text, desc())
 	}
 	body, err := newRefBody(parsed, wo)
 	if err != nil {
-		return fail("c18.harness.writeout-alignment", "%v\n%s\n%s", err, text, desc())
+		return nil, "", fail("c18.harness.writeout-alignment", "%v\n%s\n%s", err, text, desc())
 	}
 	vars := map[string]cty.Value{}
 	for k, v := range Globals {
@@ -1144,9 +1400,74 @@ func judgePlaceholder(d Data, sh shape, spec hcldec.Spec, impl result, desc func
 	}
 	ref, pm, _ := decode(body, spec, nil, &hcl.EvalContext{Variables: vars}, false)
 	if pm != "" {
+		return nil, "panic", nil
+	}
+	return &phWriteOut{wo: wo, text: text, ref: ref}, "", nil
+}
+
+// placeholderKinds: the kinds of the specs that decode the outermost blocks
+// standing for an unknown for_each.
+func placeholderKinds(d Data, wo *refdec.WriteOut) []string {
+	var out []string
+	seen := map[string]bool{}
+	for _, ph := range wo.Placeholders {
+		k := "?"
+		if sp := specAt(d.Spec, ph.Path); sp != nil {
+			k = kindName(sp)
+		}
+		if !seen[k] {
+			seen[k] = true
+			out = append(out, k)
+		}
+	}
+	return out
+}
+
+// countAlternative: the single block of the README does not decode (one). If
+// that is only because of the MinItems / MaxItems of block list / tuple / set
+// specs - it decodes once those bounds are taken out of the spec - and the
+// bounds can still be met - the body with some other number of blocks (0, 2
+// or 3 per unknown for_each) in the place of the one decodes with the real
+// spec - then the configuration is not known to be invalid: "the length of
+// the collection may eventually be different than one" (README). Returns that
+// write-out and its number of blocks, or nil.
+func countAlternative(d Data, spec hcldec.Spec, desc func() string) (*phWriteOut, int) {
+	if !hasCountBounds(d.Spec) {
+		return nil, 0
+	}
+	relaxed, st, out := placeholderWriteOut(d, withoutCountBounds(d.Spec).Build(), nil, desc)
+	if out != nil || st != "" || relaxed.ref.err {
+		return nil, 0
+	}
+	for _, k := range []int{2, 0, 3} {
+		k := k
+		alt, st, out := placeholderWriteOut(d, spec, &k, desc)
+		if out == nil && st == "" && !alt.ref.err {
+			return alt, k
+		}
+	}
+	return nil, 0
+}
+
+// judgePlaceholder: the clauses about the documented write-out of an unknown for_each.
+func judgePlaceholder(d Data, sh shape, spec hcldec.Spec, impl result, desc func() string) *engine.Outcome {
+	fail := func(class, format string, args ...any) *engine.Outcome {
+		o := engine.Fail(class, format, args...)
+		return &o
+	}
+	one, st, out := placeholderWriteOut(d, spec, nil, desc)
+	if out != nil {
+		return out
+	}
+	switch st {
+	case "undefined":
+		counters.Add("placeholder_writeouts_undefined", 1)
+		return nil
+	case "panic":
 		counters.Add("writeout_decode_panics", 1)
 		return nil
 	}
+	wo, text, ref := one.wo, one.text, one.ref
 	nesting := "no-nested-dynamic"
 	if nestedDynamicUnderUnknown(d.Body, Globals, false) {
 		nesting = "nested-dynamic-inside"
@@ -1154,21 +1475,63 @@ func judgePlaceholder(d Data, sh shape, spec hcldec.Spec, impl result, desc func
 	cls := func(clause string) string {
 		return "c18.unknown-foreach." + clause + "." + sh.xkind + "." + nesting
 	}
+	what := "one block per unknown for_each"
+	compareMarks := true
 	if ref.err {
-		// the placeholder itself does not fit the spec (e.g. a second block for a BlockSpec, a label
-		// computed from the unknown key): whether expansion reports that is not specified
-		counters.Add("placeholder_writeouts_erroneous", 1)
-		return nil
+		// The placeholder itself does not fit the spec. Where that is only a matter of how many blocks
+		// there are (MinItems / MaxItems) and some other number of blocks would do, the unknown
+		// collection says nothing about the number: no error may be reported. Otherwise (e.g. a
+		// second block for a BlockSpec, a label that occurs twice) whether expansion reports that is
+		// not specified.
+		alt, k := countAlternative(d, spec, desc)
+		if alt == nil {
+			counters.Add("placeholder_writeouts_erroneous", 1)
+			return nil
+		}
+		counters.Add("placeholder_count_alternatives_compared", 1)
+		if impl.err {
+			which := "placeholder-below-minimum"
+			if k == 0 {
+				which = "placeholder-above-maximum"
+			}
+			return fail("c18.unknown-foreach.count-error-though-count-unknown."+strings.Join(placeholderKinds(d, wo), "+")+"."+which+"."+nesting,
+				"for_each is unknown, so the number of blocks is; Expand+Decode fails: %s\nthe single block of the README fails only the MinItems / MaxItems of the spec (%s)\nand with %d block(s) per unknown for_each the body decodes to %s\nwrite-out:\n%s\n%s",
+				impl.diag, ref.diag, k, vfmt.V(alt.ref.val), alt.text, desc())
+		}
+		wo, text, ref = alt.wo, alt.text, alt.ref
+		what = fmt.Sprintf("%d blocks per unknown for_each", k)
+		if k == 0 {
+			// nothing in this write-out stands for the unknown collection, so nothing in it carries the
+			// collection's marks: only the values are compared then (that the marks of the collection
+			// are present in the real result is demanded below)
+			for _, ph := range wo.Placeholders {
+				if len(ph.Marks) > 0 {
+					compareMarks = false
+				}
+			}
+		}
 	}
 	if impl.err {
 		return fail(cls("expansion-fails-placeholder-decodes"),
 			"for_each is unknown; Expand+Decode fails: %s\nbut the body with one block per unknown collection (iterator key and value unknown) decodes to %s\nwrite-out:\n%s\n%s",
 			impl.diag, vfmt.V(ref.val), text, desc())
 	}
-	if df := compareDerived(impl.val, ref.val, true); df != nil {
+	// "still of the specification's implied type": judged here as well because the clause of the caller
+	// stands back when the static remainder alone does not conform (C08's subject), which says nothing
+	// about a result that is unknown because of the for_each
+	if implied := hcldec.ImpliedType(spec); conforms(ref.val.Type(), implied) && !conforms(impl.val.Type(), implied) {
+		return fail("c18.unknown-foreach.type-nonconformance."+sh.String()+underKinds(sh, placeholderKinds(d, wo)),
+			"for_each is unknown; Expand+Decode returned %s\nof type %s which does not conform to the implied type %s\nwhile the decoding of the write-out (%s), %s, does\nwrite-out:\n%s\n%s",
+			vfmt.V(impl.val), impl.val.Type().FriendlyName(), implied.FriendlyName(), what, vfmt.V(ref.val), text, desc())
+	}
+	got, want := impl.val, ref.val
+	if !compareMarks {
+		got, want = unmarkDeep(got), unmarkDeep(want)
+	}
+	if df := compareDerived(got, want, true); df != nil {
 		return fail(cls(df.kind),
-			"for_each is unknown; at %s the decoded value %s\nExpand+Decode                 = %s\none block per unknown for_each = %s\nwrite-out:\n%s\n%s",
-			df.path, df.msg, vfmt.V(impl.val), vfmt.V(ref.val), text, desc())
+			"for_each is unknown; at %s the decoded value %s\nExpand+Decode                 = %s\n%s = %s\nwrite-out:\n%s\n%s",
+			df.path, df.msg, vfmt.V(impl.val), what, vfmt.V(ref.val), text, desc())
 	}
 	// the marks of an unknown collection are somewhere in what it affects
 	for _, ph := range wo.Placeholders {
@@ -1187,6 +1550,15 @@ func judgePlaceholder(d Data, sh shape, spec hcldec.Spec, impl result, desc func
 		counters.Add("placeholder_writeouts_compared_nested_dynamic", 1)
 	}
 	return nil
+}
+
+// underKinds: class suffix naming the spec kinds that decode the placeholder
+// blocks when they are not the kind of x (nested block types).
+func underKinds(sh shape, kinds []string) string {
+	if len(kinds) == 0 || (len(kinds) == 1 && kinds[0] == sh.xkind) {
+		return ""
+	}
+	return ".unknown-under-" + strings.Join(kinds, "+")
 }
 
 // nestedDynamicUnderUnknown: some dynamic block with an unknown for_each
@@ -1295,7 +1667,8 @@ func judge(c engine.Case) engine.Outcome {
 			// the static remainder alone already decodes to a non-conforming type: C08's subject
 			counters.Add("static_nonconformance_skipped", 1)
 		} else if !conforms(impl.val.Type(), implied) {
-			cls := "c18.unknown-foreach.type-nonconformance." + sh.String()
+			cls := "c18.unknown-foreach.type-nonconformance." + sh.String() +
+				underKinds(sh, placeholderKinds(d, refdec.ExpandWith(d.Body, Globals, refdec.Options{Placeholder: true})))
 			if impl.err {
 				cls += ".on-error"
 			}
